@@ -298,13 +298,34 @@ theorem C02_program_with_functions_correct (prog : Program) (hp : pureSs prog = 
 open EvalFilter.Exec in
 /-- what the semantics says, spelled out for a block: statements run one after the other while each
     falls through; anything else (return, error) ends the block with that outcome -/
-theorem C02_block_semantics (M : Machine) (F : FnTable) (obj : HostVal) (depth f : Nat) (s : Stmt) (ss : List Stmt) (env : Env) (out : Str) :
+theorem C02_block_semantics (M : Machine) (F : FnTable) (obj : HostVal) (depth f : Nat) (s : Stmt) (ss : List Stmt) (env : Env) (out : Str)
+    (h : ¬ IsPair s ss) :
     execSs M F obj depth (f + 1) (s :: ss) env out =
       (match execS M F obj depth f s env out with
        | .normal env' o' => execSs M F obj depth f ss env' o'
-       | other => other) := by
+       | other => other) :=
+  execSs_other M F obj depth f s ss env out h
+
+open EvalFilter.Exec in
+/-- … where `x++;` / `x--;` - which the parser reads as TWO statements, the operand and the postfix operator
+    with the text before it as its variable - are one step: the operand is evaluated (its value is dropped),
+    then the named variable, if it holds an integer or a float, is replaced by a fresh value one more or
+    less; anything else is an error -/
+theorem C02_incdec_semantics (M : Machine) (F : FnTable) (obj : HostVal) (depth f : Nat) (e : Expr) (name op : Str) (ss : List Stmt)
+    (env : Env) (out : Str) :
+    execSs M F obj depth (f + 1) (.expr e :: .expr (.postfix name op) :: ss) env out =
+      (match evalE M obj env e out with
+       | (.error x, o) => failE x env o
+       | (.ok _, o) =>
+         match incDecEnv obj env name (op == ['+', '+']) with
+         | .error x => .failed x env o
+         | .ok env' => execSs M F obj depth f ss env' o) := by
   simp only [execSs]
-  cases execS M F obj depth f s env out <;> rfl
+  cases evalE M obj env e out with
+  | mk res o =>
+    cases res with
+    | error x => rfl
+    | ok v => simp only []; cases incDecEnv obj env name (op == ['+', '+']) <;> rfl
 
 open EvalFilter.Exec in
 /-- … and for a loop: the condition is evaluated; if truthy the body runs once and the loop starts
@@ -504,6 +525,26 @@ example : compileProgram progB = .ok compB := by
   | error e => rw [h] at hok; cases hok
 example : (match execSs (Api.newMachine compB false Api.defaultFns (fun _ => false)) (defsOf progB) .nilIface 0 20 progB {} [] with
     | .returned (.int v) _ _ => v == 8
+    | _ => false) = true := by decide +kernel
+/-- the README's loop: `i = 0; sum = 0; while (i < 5) { sum += i; i++; } return sum;` yields 10 -/
+private def progI : Program :=
+  [ .expr (.assign ['i'] (.intLit ['0'] 0)),
+    .expr (.assign ['s','u','m'] (.intLit ['0'] 0)),
+    .expr (.whileE (.infix ['<'] (.ident ['i']) (.intLit ['5'] 5))
+      [ .expr (.infix ['+','='] (.ident ['s','u','m']) (.ident ['i'])),
+        .expr (.ident ['i']), .expr (.postfix ['i'] ['+','+']) ]),
+    .ret (.ident ['s','u','m']) ]
+private def compI : Compiled := match compileProgram progI with | .ok c => c | .error _ => ⟨[], [], []⟩
+example : pureSs progI = true := by decide
+example : topNd progI = true := by decide
+example : compileProgram progI = .ok compI := by
+  have hok : (match compileProgram progI with | .ok _ => true | .error _ => false) = true := by decide +kernel
+  unfold compI
+  cases h : compileProgram progI with
+  | ok c => rfl
+  | error e => rw [h] at hok; cases hok
+example : (match execSs (Api.newMachine compI false [] (fun _ => false)) (defsOf progI) .nilIface 0 40 progI {} [] with
+    | .returned (.int v) _ _ => v == 10
     | _ => false) = true := by decide +kernel
 end nonvacuous
 
